@@ -355,10 +355,16 @@ fn cli_zones(ctx: &mut Ctx) {
     let mut n = 0u64;
     let src = "a<!-- <time-limited to=\"2024-03-01 09:00:00\"> -->X<!-- </time-limited> -->b";
     let t0 = epoch(2024, 3, 1, 0, 0, 0); // == 2024-03-01 09:00:00 at +09:00
-    for (now, expect_removed) in [(t0 - 1, false), (t0, true), (t0 + 1, true)] {
+    // (whole seconds since the epoch, fraction text, expected): sub-second instants just before expiry are still before it
+    let instants: Vec<(i64, &str, bool)> = vec![(t0 - 1, "", false), (t0, "", true), (t0 + 1, "", true), (t0 - 1, ".5", false), (t0 - 1, ".999999999", false), (t0 - 1, ".499", false), (t0, ".000000001", true), (t0 - 2, ".75", false)];
+    for (now, frac, expect_removed) in instants {
         for zone in [0i64, 9 * 3600, -8 * 3600, 5 * 3600 + 1800, -(9 * 3600 + 1800)] {
             for tz in [Some("UTC"), Some("Asia/Tokyo"), Some("America/Los_Angeles"), None] {
-                let cur = rfc3339(now, zone);
+                let cur = {
+                    let base = rfc3339(now, zone);
+                    // insert the fraction behind the seconds (position 19 of YYYY-MM-DDTHH:MM:SS)
+                    format!("{}{}{}", &base[..19], frac, &base[19..])
+                };
                 let args = vec!["--time-limited-time-offset=+09:00".to_string(), format!("--time-limited-current={cur}")];
                 let out = match run_cli(&args, Some(src.as_bytes()), &[("TZ", tz)], None) {
                     Ok(o) => o,
@@ -372,7 +378,7 @@ fn cli_zones(ctx: &mut Ctx) {
                 let removed = text == "ab";
                 if out.status != 0 || (!removed && text != src) || removed != expect_removed {
                     let case = json!({"args": args, "stdin": src, "TZ": tz, "expect_removed": expect_removed});
-                    ctx.failure = Some(Failure { broken: false, sub: "cli-zones".into(), case, tape: None, message: format!("chiritori {:?} with TZ={:?}: exit {}, output {:?}; the element expires at 2024-03-01 09:00:00 +09:00 and the given instant is {} UTC, so it must be {}", args, tz, out.status, text, wall(now, 0), if expect_removed { "removed" } else { "kept" }) });
+                    ctx.failure = Some(Failure { broken: false, sub: "cli-zones".into(), case, tape: None, message: format!("chiritori {:?} with TZ={:?}: exit {}, output {:?}; the element expires at 2024-03-01 09:00:00 +09:00 and the given instant is {} UTC, so it must be {}", args, tz, out.status, text, format!("{}{}", wall(now, 0), frac), if expect_removed { "removed" } else { "kept" }) });
                     return;
                 }
             }
